@@ -16,6 +16,7 @@ import (
 	"go/types"
 	"os"
 	"path/filepath"
+	"strings"
 
 	"golang.org/x/tools/go/ssa"
 	"golang.org/x/tools/go/ssa/ssautil"
@@ -333,6 +334,28 @@ func runSelfTest(verif string) int {
 			})
 		}
 		expect("INLINE-VIEW literals in assignment and if-condition are flattened into type-correct statements", err == nil && okTypes && nLit == 0, true)
+	}
+	// --- a flag-guarded deferred clean-up made explicit (inlined view) ---
+	{
+		good := []byte("package q\n\nfunc rel() {}\n\nfunc f(a, b bool) {\n\tdone := false\n\tdefer func() {\n\t\tif !done {\n\t\t\trel()\n\t\t}\n\t}()\n\tif a {\n\t\treturn\n\t}\n\tswitch {\n\tcase b:\n\t\tdone = true\n\tdefault:\n\t}\n}\n")
+		fs := token.NewFileSet()
+		pf, _ := parser.ParseFile(fs, "q.go", good, parser.ParseComments)
+		out, ok := undeferOne(fs, pf, good)
+		nIf := strings.Count(string(out), "if !done")
+		fs2 := token.NewFileSet()
+		_, perr := parser.ParseFile(fs2, "q.go", out, 0)
+		expect("INLINE-VIEW flag-guarded deferred clean-up is copied to the return and the end of the body", ok && perr == nil && nIf == 2 && !strings.Contains(string(out), "defer"), true)
+		// not rewritten: the flag is stored from a computed value; the function has results; a second defer
+		for _, bad := range []string{
+			"package q\n\nfunc rel() {}\n\nfunc f(a bool) {\n\tdone := false\n\tdefer func() {\n\t\tif !done {\n\t\t\trel()\n\t\t}\n\t}()\n\tdone = a\n}\n",
+			"package q\n\nfunc rel() {}\n\nfunc f(a bool) int {\n\tdone := false\n\tdefer func() {\n\t\tif !done {\n\t\t\trel()\n\t\t}\n\t}()\n\tdone = true\n\treturn 1\n}\n",
+			"package q\n\nfunc rel() {}\n\nfunc f(a bool) {\n\tdone := false\n\tdefer rel()\n\tdefer func() {\n\t\tif !done {\n\t\t\trel()\n\t\t}\n\t}()\n\tdone = true\n}\n",
+		} {
+			fs3 := token.NewFileSet()
+			pb, _ := parser.ParseFile(fs3, "q.go", bad, 0)
+			_, okb := undeferOne(fs3, pb, []byte(bad))
+			expect("INLINE-VIEW a deferred clean-up outside the narrow form is left alone", okb, false)
+		}
 	}
 	theProg = theProgSaved
 	resetInterpMemo()
